@@ -1,13 +1,15 @@
 ----------------------------- MODULE PropYamlMC -----------------------------
 (***************************************************************************)
-(* Bounded exhaustive check of the export / import model: source and       *)
-(* destination trees are built by every history of at most MaxOps set      *)
-(* calls over a small alphabet (PropDoc!Do), interleaved with Export of    *)
-(* the source and Import into the destination.                             *)
+(* Bounded exhaustive check of the export / import model.  The source tree *)
+(* ranges over EVERY document of nesting depth <= DocDepth over the given  *)
+(* keys, scalar ids and list lengths; the destination over representative  *)
+(* shapes (empty, scalar, map sharing a key with the source, longer list). *)
+(* Histories: Export, Import and modifications of the source after the     *)
+(* export, up to MaxOps steps.                                             *)
 (***************************************************************************)
 EXTENDS PropYaml
 
-CONSTANTS Keys, Vals, MaxIdx, MaxOps, MaxDepth, MaxSize
+CONSTANTS Keys, Vals, MaxLen, DocDepth, MaxOps
 
 VARIABLES src, dst, file, snap, n, last
 
@@ -15,26 +17,33 @@ vars == <<src, dst, file, snap, n, last>>
 
 NoFile == <<>>
 
-ElemSteps ==
-    {[k |-> "key", id |-> x] : x \in Keys} \cup
-    {[k |-> "idx", n |-> i] : i \in 0..MaxIdx} \cup
-    {[k |-> "app"]}
-TermSteps == {[k |-> "map"], [k |-> "list"], [k |-> "dot"]}
+Leafs == {Null} \cup {Scalar(v) : v \in Vals}
 
-Paths ==
-    {<<s>> : s \in ElemSteps \cup {[k |-> "dot"]}} \cup
-    {<<s, t>> : s \in ElemSteps, t \in ElemSteps}
+RECURSIVE Docs(_)
+Docs(d) ==
+    IF d = 0 THEN Leafs
+    ELSE LET sub == Docs(d - 1)
+         IN Leafs
+            \cup UNION {{Map(f) : f \in [S -> sub]} : S \in SUBSET Keys}
+            \cup UNION {{List(s) : s \in [1..len -> sub]} : len \in 0..MaxLen}
 
-Values == {Scalar(v) : v \in Vals} \cup {Null}
+AKey == CHOOSE k \in Keys : TRUE
+AVal == CHOOSE v \in Vals : TRUE
 
-BuildOps ==
-    {[kind |-> "Set", path |-> p, val |-> v] : p \in Paths, v \in Values} \cup
-    {[kind |-> "SetSub", path |-> <<s, t>>] :
-        s \in ElemSteps \cup {[k |-> "dot"]}, t \in {[k |-> "map"], [k |-> "list"]}} \cup
-    {[kind |-> "SetSub", path |-> <<t>>] : t \in {[k |-> "map"], [k |-> "list"]}}
+DstDocs ==
+    {Null, Scalar(AVal),
+     Map([k \in Keys |-> List(<<Scalar(AVal), Null>>)]),
+     List([i \in 1..(MaxLen + 2) |-> Scalar(AVal)])}
+
+(* modifications of the source after it was exported *)
+SrcOps ==
+    {[kind |-> "Set", path |-> <<[k |-> "key", id |-> AKey]>>, val |-> Scalar(AVal)],
+     [kind |-> "Set", path |-> <<[k |-> "idx", n |-> 0]>>, val |-> Null],
+     [kind |-> "Del", path |-> <<[k |-> "dot"]>>]}
 
 Init ==
-    /\ src = Null /\ dst = Null /\ file = NoFile /\ snap = Null /\ n = 0
+    /\ src \in Docs(DocDepth) /\ dst \in DstDocs
+    /\ file = NoFile /\ snap = Null /\ n = 0
     /\ last = [a |-> "Init", presrc |-> Null, predst |-> Null]
 
 Hist(a) == last' = [a |-> a, presrc |-> src, predst |-> dst]
@@ -42,10 +51,6 @@ Hist(a) == last' = [a |-> a, presrc |-> src, predst |-> dst]
 SetSrc(op) ==
     LET r == Do(src, op)
     IN /\ r.ok /\ src' = r.doc /\ UNCHANGED <<dst, file, snap>> /\ Hist("SetSrc")
-
-SetDst(op) ==
-    LET r == Do(dst, op)
-    IN /\ r.ok /\ dst' = r.doc /\ UNCHANGED <<src, file, snap>> /\ Hist("SetDst")
 
 Export ==
     LET r == DoExport(src)
@@ -61,14 +66,11 @@ Import ==
 Next ==
     /\ n < MaxOps
     /\ n' = n + 1
-    /\ \/ \E op \in BuildOps : SetSrc(op) \/ SetDst(op)
+    /\ \/ \E op \in SrcOps : SetSrc(op)
        \/ Export
        \/ Import
 
 Spec == Init /\ [][Next]_vars
-
-Bound == /\ Depth(src) <= MaxDepth /\ Size(src) <= MaxSize
-         /\ Depth(dst) <= MaxDepth /\ Size(dst) <= MaxSize
 
 -----------------------------------------------------------------------------
 TypeOK == WellFormed(src) /\ WellFormed(dst)
@@ -79,8 +81,8 @@ RoundTrip == file # NoFile => (Balanced(file) /\ Build(file) = snap)
 (* the exporter does not touch the tree *)
 ExportPure == last.a = "Export" => src = last.presrc
 
-(* after an import the destination is the exported document whatever it   *)
-(* held before                                                             *)
+(* after an import the destination is the exported document, whatever it  *)
+(* held before and whatever happened to the source since the export       *)
 ImportReplaces == last.a = "Import" => (dst = snap /\ src = last.presrc)
 
 (* the first event tells the node kind: null, scalar, mapping and sequence *)
@@ -90,7 +92,7 @@ KindPreserved ==
         Head(file).e = (CASE snap.t = "n" -> "null" [] snap.t = "s" -> "scalar"
                           [] snap.t = "m" -> "mapStart" [] snap.t = "l" -> "seqStart")
 
-(* the stream has one key event per map entry and one leaf event per leaf  *)
+(* one leaf event per leaf, one key event per map entry *)
 RECURSIVE Leaves(_)
 RECURSIVE LeavesSet(_, _)
 LeavesSet(d, S) == IF S = {} THEN 0
@@ -102,7 +104,14 @@ Leaves(d) == CASE d.t \in {"n", "s"} -> 1
 CountEv(s, kinds) == Cardinality({i \in 1..Len(s) : s[i].e \in kinds})
 LeafCount == file # NoFile => CountEv(file, {"null", "scalar"}) = Leaves(snap)
 
-(* coverage witnesses (checked to be reachable by the negated-invariant    *)
-(* runs in the .cfg of the family's self test; here as state predicates)   *)
-ImportIntoNonEmptySeen == ~(last.a = "Import" /\ last.predst # Null /\ last.predst # snap)
+(* two different documents never serialise to the same stream (the format  *)
+(* is injective); checked pairwise against a fixed probe set               *)
+Probes == Docs(1)
+Injective == file # NoFile => \A p \in Probes : (Events(p) = file) => (p = snap)
+
+(* coverage witnesses: each of these must be VIOLATED (reachable); the     *)
+(* family runner checks that with PropYamlMC_witness.cfg                   *)
+WitnessImportNonEmpty ==
+    ~(last.a = "Import" /\ last.predst # Null /\ last.predst # snap
+      /\ Depth(snap) = DocDepth /\ src # snap)
 =============================================================================
